@@ -192,3 +192,24 @@ Definition cd_out_ok (dtype value out : str) : bool :=
       && opt_list_eqb (utf8 value) (pct_decode ev)
       && forallb (fun c => char_in c uri_UNRESERVED || (c =? pct)) ev
   else false.
+
+(* ---- 5. emission order of the jar cookies: a cookie that is set again moves to the end of the
+   Set-Cookie block (set_cookie drops the old Morsel first), an unset one keeps its place *)
+Definition order_after_set (before : list str) (name : str) : list str :=
+  filter (fun k => negb (str_eqb name k)) before ++ [name].
+Definition order_after_unset (before : list str) (name : str) : list str :=
+  if mem name before then before else before ++ [name].
+(* oracle on the cookie names read from two consecutive emitted lists around one successful call:
+   kind 0 = set_cookie, 1 = unset_cookie *)
+Fixpoint strs_eqb (a b : list str) : bool :=
+  match a, b with
+  | [], [] => true
+  | x :: a', y :: b' => str_eqb x y && strs_eqb a' b'
+  | _, _ => false
+  end.
+Definition cookie_order_ok (kind : N) (before : list str) (name : str) (after : list str) : bool :=
+  strs_eqb after
+    (if kind =? 0 then order_after_set before name else order_after_unset before name).
+(* the jar cookie keys of an emitted list, in order *)
+Definition cookie_keys (l : list item) : list str :=
+  flat_map (fun i => match i with ICookie _ k _ => [k] | IPlain _ _ => [] end) l.
